@@ -71,6 +71,10 @@ def fundingStep (s : State) (ws : List String) : State × String :=
     match nats? rest with
     | some [who, reward] => (s.mine (who == 1) reward, "ok")
     | _ => (s, "bad-op")
+  | ["lag", k] => match nat? k with
+    | some k => (s.lag k, "ok")
+    | none => (s, "bad-op")
+  | ["sync"] => (s.sync, "ok")
   | ["tick", d] => match nat? d with
     | some d => (s.tick d, "ok")
     | none => (s, "bad-op")
@@ -87,7 +91,7 @@ def fundingModel : Model where
   σ := State
   init := fun ws => match nats? ws with
     | some [thr, maxIn, maxDefrag, dur, wb, wp, delay, height] =>
-      some { State.init ⟨thr, maxIn, maxDefrag, dur, wb, wp, delay⟩ with height := height, nextId := 1 }
+      some { State.init ⟨thr, maxIn, maxDefrag, dur, wb, wp, delay⟩ with height := height, cmHeight := height, nextId := 1 }
     | _ => none
   step := fundingStep
 
